@@ -115,6 +115,32 @@ where
     Ok(v)
 }
 
+/// Validates the element count of a list, set or map read from an in-memory
+/// buffer: every element occupies at least one byte, so a count that is negative
+/// or exceeds the remaining input cannot be honoured. Generated decoders
+/// pre-allocate `count` elements, which makes an unchecked count a way to request
+/// gigabytes with a message of a few bytes.
+#[inline]
+pub(crate) fn checked_container_size(
+    size: i32,
+    remaining: usize,
+) -> Result<usize, ThriftException> {
+    if size < 0 {
+        return Err(new_protocol_exception(
+            super::ProtocolExceptionKind::NegativeSize,
+            format!("negative container size {size}"),
+        ));
+    }
+    let size = size as usize;
+    if size > remaining {
+        return Err(new_protocol_exception(
+            super::ProtocolExceptionKind::SizeLimit,
+            format!("container size {size} exceeds the {remaining} remaining bytes"),
+        ));
+    }
+    Ok(size)
+}
+
 pub trait WriteExt {
     fn write_slice(&mut self, src: &[u8]);
     fn write_u8(&mut self, n: u8);
